@@ -10,13 +10,13 @@ OBLIGATIONS = [
        what='Reference::bounding_box (two-level hierarchy, real Map<GeometryInfo> cache) == min/max over the magnified, reflected, rotated, translated and fully repeated child geometry',
        bound='child: 2-vertex polygon + label, coordinates -2..2; magnification -2..2, both reflections, rotation 0 (corner shortcut) or arbitrary with free cos/sin (hull branch, qhull = identity hull); reference without repetition (repetition x reference is covered at element level and by C11 extrema)',
        variants=[dict(REFL=f, ROT0=z, KIND=0, A=0, B=0) for f in (0, 1) for z in (0, 1)] + [dict(REFL=0, ROT0=0, KIND=0, A=0, B=0, PRE=1)],
-       unwind=7, timeout=500, mem_gb=10, retry_defines=['-DAXIS_ONLY'], nvec=25),
+       unwind=7, timeout=500, mem_gb=10, real_stub_syms=['cos', 'sin', 'sincos'], nvec=25),
     Ob('bounding_box_cache_agreement', 'C09/bbox_ref.c', ['_ZNK5gdstk9Reference12bounding_boxERNS_4Vec2ES2_RNS_3MapINS_12GeometryInfoEEE', '_ZNK5gdstk9Reference12bounding_boxERNS_4Vec2ES2_', '_ZNK5gdstk4Cell12bounding_boxERNS_3MapINS_12GeometryInfoEEE'],
        stubs=['_ZN5gdstk11convex_hullENS_5ArrayINS_4Vec2EEERS2_', '_ZN5gdstk24is_multiple_of_pi_over_2EdRl'], model='ie', defines={'REAL_TOL': 1, 'IE_BITS': 14, 'OP': 1, 'PRE': 0},
        what='a second query through the filled cache and the cache-free entry point return the same box as the first query',
        bound='same hierarchy; rotation 0 and free rotation, no repetition',
        variants=[dict(REFL=1, ROT0=0, KIND=0, A=0, B=0)],
-       unwind=10, timeout=600, mem_gb=12, retry_defines=['-DAXIS_ONLY'], nvec=25),
+       unwind=10, timeout=600, mem_gb=12, real_stub_syms=['cos', 'sin', 'sincos'], nvec=25),
     Ob('bounding_box_cache_agreement_rot0', 'C09/bbox_ref.c', ['_ZNK5gdstk9Reference12bounding_boxERNS_4Vec2ES2_RNS_3MapINS_12GeometryInfoEEE', '_ZNK5gdstk9Reference12bounding_boxERNS_4Vec2ES2_', '_ZNK5gdstk4Cell12bounding_boxERNS_3MapINS_12GeometryInfoEEE'],
        stubs=['_ZN5gdstk11convex_hullENS_5ArrayINS_4Vec2EEERS2_', '_ZN5gdstk24is_multiple_of_pi_over_2EdRl'], model='ie', defines={'REAL_TOL': 1, 'IE_BITS': 14, 'OP': 1, 'PRE': 0},
        what='cache agreement on the corner-shortcut branch', bound='rotation 0, no repetition', variants=[dict(REFL=0, ROT0=1, KIND=0, A=0, B=0)],
@@ -25,12 +25,12 @@ OBLIGATIONS = [
        what='Reference::repeat_and_transform (input of Reference::convex_hull and of the rotated bounding box): its points reach exactly as far, in the 8 axis/diagonal directions, as the transformed child points under ALL repetition offsets',
        bound='1 child point in -2..2 (the map acts pointwise), magnification -2..2, reflected, rotation 0 or free (c,s); reference repetition rectangular 2x2, explicit 3 entries (+ regular 2x2 unreflected); vectors in -2..2',
        variants=[dict(REFL=1, ROT0=z, **s) for z in (0, 1) for s in (dict(KIND=1, A=2, B=2), dict(KIND=3, A=3, B=0))] + [dict(REFL=0, ROT0=1, KIND=2, A=2, B=2)],
-       unwind=9, timeout=600, mem_gb=10, retry_defines=['-DAXIS_ONLY'], nvec=25),
+       unwind=9, timeout=600, mem_gb=10, real_stub_syms=['cos', 'sin', 'sincos'], nvec=25),
     Ob('reference_hull_points_all', 'C09/hull_rep.c', ['_ZNK5gdstk9Reference20repeat_and_transformERNS_5ArrayINS_4Vec2EEE'], model='ie', defines={'REAL_TOL': 1, 'IE_BITS': 14},
        what='same obligation over all reflection / rotation / kind combinations and with 2 child points',
        bound='rectangular 2x2, regular 2x2, explicit 3; both reflections; rotation 0 and free; NPT 1 and 2',
        variants=[dict(REFL=f, ROT0=z, NPT=n, **s) for f in (0, 1) for z in (0, 1) for n in (1, 2) for s in (dict(KIND=1, A=2, B=2), dict(KIND=2, A=2, B=2), dict(KIND=3, A=3, B=0))],
-       unwind=17, timeout=3000, mem_gb=12, retry_defines=['-DAXIS_ONLY'], nvec=25, tier='thorough'),
+       unwind=17, timeout=3000, mem_gb=12, real_stub_syms=['cos', 'sin', 'sincos'], nvec=25, tier='thorough'),
 ]
 BOUNDS = 'elements: every repetition kind up to 2x3 / 3 entries; hierarchy: one reference to a cell with a 2-vertex polygon and a label, magnification -2..2, both reflections, rotation 0 or free (c,s)'
 OUTSIDE = 'qhull output (convex_hull minimality/ordering): replaced by the identity hull; references carrying a repetition inside the two-level query (no verdict within 10 GB: realloc/memcpy of the repeated point array); hierarchies deeper than two levels; path outlines inside cells'
